@@ -385,7 +385,7 @@ func (h *hist) collect() {
 	for _, mm := range w.U.Mans {
 		if real.Man[mm.D] == "ok" {
 			if m.Mans[mm.D] == nil {
-				m.Mans[mm.D] = mm // K5-style resurrection through the reload a directory collection performs
+				m.Mans[mm.D] = mm      // K5-style resurrection through the reload a directory collection performs
 				m.Adopted[mm.D] = true // it exists only as a child of the index that lists it
 				h.diverged = true
 				h.r.Count("resurrected_manifests_adopted", 1)
